@@ -15,4 +15,8 @@ theorem tie_pstep_expected : pstep Nv.Gen.C12.cfg.priq = pstep PriShape.expected
 theorem tie_conservation (ops : List Op) (s : LQ) (y : Nat) :
     (final (step Nv.Gen.C12.cfg) s ops).items.count y + poppedIn y s ops = s.items.count y + addedIn y s ops :=
   q_conservation _ tie_cfg_proved ops s y
+/-- FIFO for every history, on the regenerated configuration -/
+theorem tie_fifo_history (ops : List Op) (s : LQ) (hc : s.ctrl = []) (hops : ∀ op ∈ ops, noFront op = true) :
+    poppedSeq Nv.Gen.C12.cfg s ops ++ (final (step Nv.Gen.C12.cfg) s ops).req = s.req ++ acceptedSeq Nv.Gen.C12.cfg s ops :=
+  q_fifo_history _ tie_cfg_proved ops s hc hops
 end Nv.C12
